@@ -2,7 +2,8 @@
   Model of the *inventory and arithmetic* of the C++ support header written by
   /repo/lib/src/uigen/binding.rs (`UiSupportCode::build`, `write_header`, `write_binding_index`, `write_fields`,
   `CxxBinding::write_update_function`, `CxxEvalExprFunction::{write_function,write_field}`,
-  `CxxEvalGadgetMapFunction::build`, `collect_system_includes`, `format_operand` for string constants) and of the
+  `CxxEvalGadgetMapFunction::build`, `collect_system_includes`, `format_operand` for string constants — `format_cxx_string_literal` after the repair
+  5f82544, the former Rust `{:?}` spelling is kept as `formatStringLiteralOld`) and of the
   observer allocation of /repo/lib/src/tir/propdep.rs (`analyze_block`: `observers.resize_with(n, alloc)`).
 
   Input of the model: per object (in `ObjectTree::flat_iter` order) the property bindings *in the order the code visits
@@ -18,7 +19,30 @@ import QV.Model.RustDebugTable
 namespace QV.Model.CxxEmit
 open QV.Model.Names
 
-/-! ### string literals: Rust `{:?}` of a `str` (`format_operand`: `QStringLiteral({v:?})`, `{v:?}`) -/
+/-! ### string literals: `format_cxx_string_literal` (repair 5f82544) -/
+
+def octDigit (d : Nat) : Char := Char.ofNat (48 + d)
+
+/-- Rust `{:03o}` of a value below 512 -/
+def octal3 (n : Nat) : Str := [octDigit (n / 64 % 8), octDigit (n / 8 % 8), octDigit (n % 8)]
+
+/-- the `c if (c as u32) < 0x20 || c == '\x7f'` arm -/
+def isCxxControl (c : Char) : Bool := c.toNat < 0x20 || c.toNat == 0x7f
+
+/-- one character of `format_cxx_string_literal` (the match arms in source order) -/
+def escapeCxxChar (c : Char) : Str :=
+  if c = '"' then ['\\', '"']
+  else if c = '\\' then ['\\', '\\']
+  else if c = '\n' then ['\\', 'n']
+  else if c = '\r' then ['\\', 'r']
+  else if c = '\t' then ['\\', 't']
+  else if isCxxControl c then '\\' :: octal3 c.toNat
+  else [c]
+
+/-- the characters between the quotes of `QStringLiteral("…")`, `translate("…", "…")`, `qDebug() << "…"` -/
+def formatStringLiteral (s : Str) : Str := s.flatMap escapeCxxChar
+
+/-! ### the former printer: Rust `{:?}` of a `str` (before 5f82544; finding F3b) -/
 
 def hexDigit (n : Nat) : Char :=
   if n < 10 then Char.ofNat (48 + n) else Char.ofNat (87 + n)
@@ -38,11 +62,10 @@ def escapeDebugChar (uni : Char → Bool) (c : Char) : Str :=
   else if uni c then ['\\', 'u', '{'] ++ lowerHex c.toNat ++ ['}']
   else [c]
 
-/-- the characters between the quotes of `{:?}` -/
 def formatStringLiteralWith (uni : Char → Bool) (s : Str) : Str := s.flatMap (escapeDebugChar uni)
 
-/-- … with the table of the toolchain that builds /repo -/
-def formatStringLiteral (s : Str) : Str := formatStringLiteralWith RustDebugTable.needsUnicodeEscape s
+/-- what the code printed before the repair, with the table of the toolchain that builds /repo -/
+def formatStringLiteralOld (s : Str) : Str := formatStringLiteralWith RustDebugTable.needsUnicodeEscape s
 
 /-! ### re-entrancy guard (`write_fields`, `write_update_function`) -/
 
@@ -75,6 +98,8 @@ def observerDecl (name : Str) (count : Nat) : Option (Str × Nat) :=
 
 inductive Builtin where
   | max | min | log | tr
+  /-- `Rvalue::BinaryOp(Rem)` with a `double` operand (`is_double_rem`): printed as `std::fmod` -/
+  | fmod
 deriving DecidableEq, Repr
 
 structure ExprInfo where
@@ -264,18 +289,22 @@ def allUses (objs : List Obj) : List Builtin := objs.flatMap objUses
 
 def incQtDebug : Str := "QtDebug".toList
 def incAlgorithm : Str := "algorithm".toList
+def incCmath : Str := "cmath".toList
 
-/-- `HashSet<&'static str>` written `.iter().sorted()`: "QtDebug" < "algorithm" in byte order -/
+/-- `HashSet<&'static str>` written `.iter().sorted()`: "QtDebug" < "algorithm" < "cmath" in byte order -/
 def systemIncludes (objs : List Obj) : List Str :=
   (if (allUses objs).contains .log then [incQtDebug] else []) ++
-  (if (allUses objs).contains .max || (allUses objs).contains .min then [incAlgorithm] else [])
+  (if (allUses objs).contains .max || (allUses objs).contains .min then [incAlgorithm] else []) ++
+  (if (allUses objs).contains .fmod then [incCmath] else [])
 
 /-- builtin uses of the code that is actually emitted -/
 def Built.emittedUses (b : Built) : List Builtin :=
   (b.bindings.flatMap id).flatMap (fun it => match it.kind with | .expr i => i.uses | .gadget => []) ++
     b.callbacks.flatMap (fun c => c.2.uses)
 
-/-! ### operators and builtin calls as spelled in C++ (`format_rvalue`) — small typing tables (F3a, F13) -/
+/-! ### operators and builtin calls as spelled in C++ (`format_rvalue`) — small typing tables
+
+  `…Old` = the code before the repairs (F3a 0f767b2, F13 bd13865, F24 5a4a210, F23 17832f1). -/
 
 inductive PTy where
   | int | uint | double | bool | qstring
@@ -292,15 +321,132 @@ def implAcceptsArith (op : ArithOp) (t : PTy) : Bool :=
   | .qstring => op == .add
   | .bool => false
 
-/-- the operator is printed verbatim (`"{} {} {}"`): does C++17 accept `a op b` for two operands of that type?
+/-- does C++17 accept `a op b` for two operands of that type?
     (`%` needs integral or unscoped enumeration operands [expr.mul]/2; QString has `operator+` only) -/
-def cxxAcceptsArith (op : ArithOp) (t : PTy) : Bool :=
+def cxxAcceptsInfix (op : ArithOp) (t : PTy) : Bool :=
   match t, op with
   | .int, _ | .uint, _ | .bool, _ => true
   | .double, .rem => false
   | .double, _ => true
   | .qstring, .add => true
   | .qstring, _ => false
+
+inductive ArithSpelling where
+  /-- `"{} {} {}"` -/
+  | infix
+  /-- `std::fmod({}, {})` -/
+  | fmod
+deriving DecidableEq, Repr
+
+/-- `format_rvalue`: the `is_double_rem` arm comes first -/
+def spellArith (op : ArithOp) (t : PTy) : ArithSpelling :=
+  if op = .rem ∧ t = .double then .fmod else .infix
+
+/-- before 0f767b2 every arithmetic operator was printed infix -/
+def spellArithOld (_op : ArithOp) (_t : PTy) : ArithSpelling := .infix
+
+/-- `std::fmod(double, double)` is declared by `<cmath>` -/
+def cxxAcceptsArith (sp : ArithSpelling) (op : ArithOp) (t : PTy) : Bool :=
+  match sp with
+  | .infix => cxxAcceptsInfix op t
+  | .fmod => t == .double
+
+/-- the builtin use that `collect_system_includes` records for the spelling -/
+def arithUses (sp : ArithSpelling) : List Builtin :=
+  match sp with
+  | .infix => []
+  | .fmod => [.fmod]
+
+/-! comparison -/
+
+inductive CmpOp where
+  | eq | ne | lt | le | gt | ge
+deriving DecidableEq, Repr
+
+def CmpOp.isEquality : CmpOp → Bool
+  | .eq | .ne => true
+  | _ => false
+
+/-- operand pairs of a comparison after type deduction -/
+inductive CmpOperands where
+  | prim (t : PTy)
+  | enums
+  /-- two pointer values of the same class -/
+  | pointers
+  /-- a pointer value and the `null` literal (printed `nullptr`) -/
+  | pointerNull
+deriving DecidableEq, Repr
+
+/-- `emit_binary_expression`, `BinaryOp::Comparison` after 5a4a210: pointers only with `==`/`!=` -/
+def implAcceptsCmp (op : CmpOp) (o : CmpOperands) : Bool :=
+  match o with
+  | .prim _ | .enums => true
+  | .pointers | .pointerNull => op.isEquality
+
+def implAcceptsCmpOld (_op : CmpOp) (_o : CmpOperands) : Bool := true
+
+/-- C++17: relational operators on a pointer and `nullptr` are ill-formed ([expr.rel]: `std::nullptr_t` is not a
+    pointer type and there is no conversion for relational comparison); everything else in the table is accepted
+    (QString and QFlags have the six operators) -/
+def cxxAcceptsCmp (op : CmpOp) (o : CmpOperands) : Bool :=
+  match o with
+  | .pointerNull => op.isEquality
+  | _ => true
+
+/-! bitwise operators on enumerations (Qt 5 `QFlags`: only `operator|` is declared for two enumerators) -/
+
+inductive BitOp where
+  | and | xor | or
+deriving DecidableEq, Repr
+
+/-- C++ type of an enumeration-typed operand or expression -/
+inductive ETy where
+  /-- the enumeration itself -/
+  | enum
+  /-- `QFlags<Enum>` -/
+  | qflags
+  | int
+deriving DecidableEq, Repr
+
+/-- type of `l op r`; `flagOps` = `Q_DECLARE_OPERATORS_FOR_FLAGS` is in effect for the enumeration -/
+def bitResult (flagOps : Bool) (op : BitOp) (l r : ETy) : ETy :=
+  match l, r with
+  | .qflags, _ => .qflags                       -- member operators of QFlags take Enum, QFlags (| ^) or int (&)
+  | .enum, .qflags => if flagOps && op == .or then .qflags else .int
+  | .enum, .enum => if flagOps && op == .or then .qflags else .int
+  | _, _ => .int
+
+/-- type of `~a` -/
+def notResult (a : ETy) : ETy :=
+  match a with
+  | .qflags => .qflags
+  | _ => .int
+
+/-- implicit conversion in `local = expr;` -/
+def assignable (target : ETy) (e : ETy) : Bool :=
+  match target, e with
+  | .enum, .enum => true
+  | .qflags, .qflags | .qflags, .enum => true      -- QFlags(Enum)
+  | .int, _ => true
+  | _, _ => false
+
+/-- `static_cast<T>(static_cast<int>(e))`: every operand type converts to int (enumerations; `QFlags::operator Int`),
+    and int converts explicitly to the enumeration / to `QFlags` (through `QFlag`) -/
+def castable (_target : ETy) (_e : ETy) : Bool := true
+
+/-- after 17832f1 the result of a bitwise operation with an enumeration operand is wrapped in the two casts;
+    the local has the type of the (first) enumeration operand -/
+def cxxAcceptsBit (flagOps : Bool) (op : BitOp) (l r : ETy) : Bool := castable l (bitResult flagOps op l r)
+def cxxAcceptsBitOld (flagOps : Bool) (op : BitOp) (l r : ETy) : Bool := assignable l (bitResult flagOps op l r)
+def cxxAcceptsNot (a : ETy) : Bool := castable a (notResult a)
+def cxxAcceptsNotOld (a : ETy) : Bool := assignable a (notResult a)
+
+/-- operands the type checker admits: both of enumeration type (the enum or its flags alias) -/
+def isEnumOperand : ETy → Bool
+  | .enum | .qflags => true
+  | .int => false
+
+/-! `Math.max` / `Math.min` -/
 
 /-- how an operand of `Math.max/min` is typed by a C++ compiler: a local of the concrete type, or an untyped integer
     constant printed as a decimal literal (type `int` when it fits) -/
@@ -324,8 +470,22 @@ def implAcceptsMax (a b : MaxArg) : Bool :=
   | .intLiteral, .intLiteral => true
   | _, _ => false
 
+/-- `uint_template_argument` (bd13865): `<uint>` iff a `uint` value meets an untyped integer constant -/
+def uintTemplateArgument (a b : MaxArg) : Bool :=
+  (a == .typed .uint || b == .typed .uint) && (a == .intLiteral || b == .intLiteral)
+
 /-- `std::max(a, b)` without explicit template argument: `template<class T> const T& max(const T&, const T&)` —
     deduction succeeds iff both arguments have the same type -/
-def cxxAcceptsMax (a b : MaxArg) : Bool := a.cxxType == b.cxxType
+def cxxAcceptsMaxOld (a b : MaxArg) : Bool := a.cxxType == b.cxxType
+
+/-- with `std::max<uint>(a, b)` both arguments only have to convert to `uint` (int and uint do) -/
+def convertsToUint (t : PTy) : Bool :=
+  match t with
+  | .int | .uint | .bool | .double => true
+  | .qstring => false
+
+def cxxAcceptsMax (a b : MaxArg) : Bool :=
+  if uintTemplateArgument a b then convertsToUint a.cxxType && convertsToUint b.cxxType
+  else a.cxxType == b.cxxType
 
 end QV.Model.CxxEmit
